@@ -24,14 +24,14 @@ ASSUMPTIONS = ["null model: uniform over the 4 characters (as in the implementat
 
 PAL = [[0.25, 0.25, 0.25, 0.25], [1.0, 0.0, 0.0, 0.0], [1 / 3., 1 / 3., 1 / 3., 0.0], [0.5, 0.5, 0.0, 0.0], [0.7, 0.1, 0.1, 0.1],
        [0.5, 0.25, 0.125, 0.125], [0.26, 0.24, 0.25, 0.25]]
-BINS = [1.0, 0.5, 0.1, 0.01]
+BINS = [1.0, 0.5, 0.3, 0.1, 0.07, 0.01]
 EPSS = [1e-6, 1e-4, 0.1]
 
 
 def bound(tier):
-    return ("all PWMs of width 1..3 over the 7-column palette (rotated character order per column) x 4 bin sizes x 3 eps; widths 6, 10"
+    return ("all PWMs of width 1..3 over the 7-column palette (rotated character order per column) x 6 bin sizes (incl. non-integer reciprocals 0.3, 0.07) x 3 eps; widths 6, 10"
             if tier == "quick" else
-            "all PWMs of width 1..5 over the 7-column palette x 4 bin sizes x 3 eps; widths 6, 7 (brute force) and 10, 20, 30 (DP)")
+            "all PWMs of width 1..5 over the 7-column palette x 6 bin sizes x 3 eps; widths 6, 7 (brute force) and 10, 20, 30 (DP)")
 
 
 def shards(tier, seed):
